@@ -36,4 +36,21 @@ theorem take_persistSteps (b k : Nat) :
   apply List.take_of_length_le
   simp [persistSteps]
 
+theorem foldl_handle (reqs : List (Nat × Bool)) : ∀ (fs : FS),
+    reqs.foldl (fun fs r => (handleReq fs r).1) fs
+      = (acked reqs).foldl (fun fs b => persist false b fs) fs := by
+  induction reqs with
+  | nil => intro fs; rfl
+  | cons r rest ih =>
+    intro fs
+    obtain ⟨b, ok⟩ := r
+    cases ok with
+    | true => simp only [List.foldl_cons, handleReq, acked, List.filter_cons, List.map_cons, ↓reduceIte]; exact ih _
+    | false =>
+      simp only [List.foldl_cons, handleReq, acked, List.filter_cons, Bool.false_eq_true, ↓reduceIte]
+      exact ih _
+
+theorem handleAll_eq (reqs : List (Nat × Bool)) : handleAll reqs = persistAll false (acked reqs) :=
+  foldl_handle reqs {}
+
 end SgModel.SnapFS
